@@ -18,6 +18,27 @@ use hx_common::*;
 #[path = "c13/cmsg.rs"]
 mod cmsg;
 
+/// Read-side codec of the harness: the identity on bytes, except that a payload starting with
+/// 0xEE is REJECTED (a decodable frame whose content the codec refuses, like invalid JSON in a
+/// well-formed frame). The stream must yield the error for that frame and carry on.
+#[derive(Clone, Copy)]
+struct RejectingCodec;
+
+const REJECT: &str = "harness-codec-reject";
+
+impl<B: IoBuf> compio_io::framed::codec::Decoder<Bytes, B> for RejectingCodec {
+    type Error = std::io::Error;
+
+    fn decode(&mut self, buf: &compio_buf::Slice<B>) -> Result<Bytes, Self::Error> {
+        let b: &[u8] = buf.as_init();
+        if b.first() == Some(&0xEE) {
+            Err(std::io::Error::new(std::io::ErrorKind::InvalidData, REJECT))
+        } else {
+            Ok(Bytes::from(b.to_vec()))
+        }
+    }
+}
+
 #[derive(Clone, Debug)]
 enum Frag {
     Data(Vec<u8>),
@@ -191,7 +212,7 @@ fn run_stream(spec: &FramerSpec, frags: Vec<Frag>, budget: usize, ex: &mut Exec)
     let r = catch(|| {
         with_framer!(spec, f, {
             let reader = ScriptReader { script: frags.into(), split: 0 };
-            let mut framed = Framed::new::<Bytes, Bytes>(BytesCodec::new(), f).with_reader(reader);
+            let mut framed = Framed::new::<Bytes, Bytes>(RejectingCodec, f).with_reader(reader);
             let mut out = String::new();
             let mut polls = 0usize;
             futures_executor::block_on(async {
@@ -206,6 +227,10 @@ fn run_stream(spec: &FramerSpec, frags: Vec<Frag>, budget: usize, ex: &mut Exec)
                             out.push_str("item:");
                             out.push_str(&hex(&item));
                             out.push(' ');
+                        }
+                        Some(Err(e)) if e.get_ref().map(|m| m.to_string()) == Some(REJECT.to_string()) => {
+                            // the codec refused this frame: the stream goes on with the next one
+                            out.push_str("decerr ");
                         }
                         Some(Err(_)) => {
                             out.push_str("err");
@@ -318,9 +343,13 @@ fn exec_line(line: &str, ex: &mut Exec) -> String {
             if wf {
                 let mut expect = String::new();
                 for f in &frames {
-                    expect.push_str("item:");
-                    expect.push_str(&hex(f));
-                    expect.push(' ');
+                    if f.first() == Some(&0xEE) {
+                        expect.push_str("decerr ");
+                    } else {
+                        expect.push_str("item:");
+                        expect.push_str(&hex(f));
+                        expect.push(' ');
+                    }
                 }
                 expect.push_str("done");
                 if out != expect {
@@ -449,6 +478,9 @@ fn generate(tier: &str, rng: &mut Rng) -> Vec<Case> {
                         _ => rng.below(24) as usize,
                     };
                     let mut p = rng.bytes_from(len, b"abcxyz\n\xc3\xa9\xe2\x84\x9d\x00");
+                    if rng.chance(1, 8) && !p.is_empty() {
+                        p[0] = 0xEE; // a frame the codec will reject
+                    }
                     if matches!(spec, FramerSpec::Any(_) | FramerSpec::Char(_)) && !wellformed(&spec, &p) && rng.chance(9, 10) {
                         // mostly valid inputs: drop the delimiter bytes from the payload
                         let d = delim_of(&spec).unwrap();
